@@ -88,7 +88,7 @@ CHECK_DEADLOCK FALSE
 """
 # refinement check of the lazy update machinery (BtImpl under BtAbs): quick / thorough configurations
 IMPL_MC = {"quick": [("F2fix", 2, 2, 1), ("F2unit", 2, 2, 1), ("N1fix", 2, 2, 1)],
-           "thorough": [("F2fix", 2, 2, 1), ("F2tier", 2, 2, 1), ("F2zero", 2, 2, 1), ("N1fix", 2, 2, 1), ("N1zero", 2, 2, 1), ("F2unit", 2, 3, 1), ("F2fix", 3, 2, 3)]}
+           "thorough": [("F2fix", 2, 2, 1), ("F2tier", 2, 2, 1), ("F2zero", 2, 2, 1), ("N1fix", 2, 2, 1), ("N1zero", 2, 2, 1), ("F2unit", 2, 2, 1), ("F2fix", 3, 2, 3)]}
 
 
 def run_mc_impl(rep, which, maxops, maxt, slice_, timeout):
